@@ -174,3 +174,89 @@ func VH_C19_pingpong() {
 	vAssert("O-out-message-size-independent-of-history", lenSecond <= lenFirst)
 	vReach("end")
 }
+
+
+// H-C19-rejected: one data message that is rejected (a genuine message with
+// one byte of the key ids, counter, ciphertext or MAC changed to any other
+// value) leaves no additional state behind: floods of forged messages cannot
+// grow the conversation.
+//
+// vh: prop=C19 expect=end unwind=700 timeout=60000
+func VH_C19_rejected() {
+	v3 := vChoose("v3", 2) == 1
+	s := vhGenuineMessage(v3, 1)
+	pos, isLen := vhMutationPos(s)
+	delta := vU8("delta")
+	vAssume(delta != 0)
+	if isLen {
+		vAssume(delta&(delta-1) == 0)
+	}
+	mut := makeCopy(s.raw)
+	mut[pos] = s.raw[pos] ^ delta
+	c0, h0, o0, r0, i0 := vhSize(s.b.c)
+	plain, toSend, _ := s.b.c.receiveDecoded(mut)
+	vAssume(vAll(plain == nil, len(toSend) == 0)) // rejected
+	c1, h1, o1, r1, i1 := vhSize(s.b.c)
+	vObserve("sizes", c0, h0, o0, c1, h1, o1)
+	vAssert("O-no-counter-entry-for-rejected-message", c1 == c0)
+	vAssert("O-mac-history-bounded", vAll(h1 <= h0+1, h1 <= 4, o1 == o0))
+	vAssert("O-no-text-or-injection-retained", vAll(r1 == r0, i1 <= i0+1))
+	vReach("end")
+}
+
+
+// H-C09-step: inductive step for the disclosure queue.  The receiver holds an
+// arbitrary pending disclosure (a key retired earlier, not yet sent) and MAC
+// keys remembered for the pair about to be retired and for a pair that stays
+// live.  One genuine message that rotates our key (or their key): the pending
+// key is still queued, the retired pair's key is queued, the live pair's key
+// is not, and nothing of the retired generation stays in the history.
+//
+// vh: prop=C09 expect=end,ours,theirs unwind=700 timeout=60000
+func VH_C09_step() {
+	v3 := vChoose("v3", 2) == 1
+	vhUseSmallGroup()
+	r := vhSymRatchet()
+	a, b := vhEncryptedPair(v3, r)
+	vhFixOrder(a, b)
+	vhNoHeartbeat(a, b)
+	kb := &b.c.keys
+	pending := macKey(vBytes("pending", 20))
+	retiredOur := macKey(vBytes("retiredOur", 20))
+	retiredTheir := macKey(vBytes("retiredTheir", 20))
+	live := macKey(vBytes("live", 20))
+	// the four keys are different keys
+	vAssume(vAll(!vBytesEq(pending, retiredOur), !vBytesEq(pending, retiredTheir), !vBytesEq(pending, live),
+		!vBytesEq(retiredOur, retiredTheir), !vBytesEq(retiredOur, live), !vBytesEq(retiredTheir, live)))
+	kb.oldMACKeys = []macKey{pending}
+	// history: a key for (our previous, their current), one for (our current, their previous), one for (our current, their current)
+	kb.macKeyHistory.items = []macKeyUsage{
+		{ourKeyID: r.oB - 1, theirKeyID: r.tB, receivingKey: retiredOur},
+		{ourKeyID: r.oB, theirKeyID: r.tB - 1, receivingKey: retiredTheir},
+		{ourKeyID: r.oB, theirKeyID: r.tB, receivingKey: live},
+	}
+	m, err := a.c.Send([]byte("x"))
+	vAssume(vAll(err == nil, len(m) == 1))
+	p, rep, e2 := b.c.Receive(m[0])
+	vAssume(vAll(e2 == nil, len(p) == 1, len(rep) == 0))
+	vObserve("queue", len(kb.oldMACKeys), len(kb.macKeyHistory.items))
+	vAssert("O4-pending-disclosure-not-lost", vhContains(kb.oldMACKeys, pending))
+	vAssert("O1-live-key-not-queued", !vhContains(kb.oldMACKeys, live))
+	if r.tA == r.oB {
+		vReach("ours")
+		vAssert("O4-our-retired-key-queued", vhContains(kb.oldMACKeys, retiredOur))
+	} else {
+		vAssert("O1-our-live-key-not-queued", !vhContains(kb.oldMACKeys, retiredOur))
+	}
+	// A's message always uses sender key oA-1; B's their-axis rotates iff that is B's current their-key
+	if r.tB == r.oA-1 {
+		vReach("theirs")
+		vAssert("O4-their-retired-key-queued", vhContains(kb.oldMACKeys, retiredTheir))
+	} else {
+		vAssert("O1-their-live-key-not-queued", !vhContains(kb.oldMACKeys, retiredTheir))
+	}
+	for _, it := range kb.macKeyHistory.items {
+		vAssert("O4-history-holds-live-pairs-only", vAll(it.ourKeyID+1 >= kb.ourKeyID, it.theirKeyID+1 >= kb.theirKeyID))
+	}
+	vReach("end")
+}
